@@ -29,7 +29,10 @@ import (
 	"github.com/google/osv-scalibr/extractor/filesystem/os/apk"
 	"github.com/google/osv-scalibr/extractor/filesystem/os/dpkg"
 	"github.com/google/osv-scalibr/extractor/filesystem/simplefileapi"
+	scalibrfs "github.com/google/osv-scalibr/fs"
 	scalibrlog "github.com/google/osv-scalibr/log"
+	"github.com/google/osv-scalibr/plugin"
+	"github.com/google/osv-scalibr/stats"
 )
 
 // ---- abstract case (as emitted by PackageDoc.tla) ----
@@ -188,16 +191,18 @@ func place(k, sect int) int { // k is 1-based
 			return k - 1
 		}
 		return 0
-	default:
+	case 2:
 		if k >= 2 {
 			return 1
 		}
 		return 0
+	default:
+		return k - 1
 	}
 }
 
-// inB says whether the k-th (1-based) record lives in the second section.
-func inB(k, sect int) bool { return place(k, sect) != 0 }
+// inB says whether the k-th (1-based) record lives in the second section (PackageDoc.tla: InSecond).
+func inB(k, sect int) bool { return sect == 3 || place(k, sect) != 0 }
 
 // keyClash mirrors PackageDoc.tla: KeyClash.
 // In formats whose second section is one map (nested = false) all records of that section share it.
@@ -230,6 +235,11 @@ func finish(lines []string, l lay) string {
 	default:
 		return s + eol
 	}
+}
+
+// defaultLayout is the layout the orchestrator calls trivial (variant does not count).
+func defaultLayout(variant string) lay {
+	return lay{Eol: "LF", Trailing: "nl", Blank: 0, Comments: "none", Extra: 0, Sect: 0, Variant: variant}
 }
 
 func blanks(n int) []string { return make([]string, n) }
@@ -299,6 +309,42 @@ func runExtract(fd *fmtDef, files map[string]string) extractResult {
 	return res
 }
 
+// runScan runs the whole filesystem walk (filesystem.Run: FileRequired on every path, Extract on the
+// required ones) over the same in-memory tree with only this format's extractor enabled.
+func runScan(fd *fmtDef, files map[string]string) extractResult {
+	mfs := fstest.MapFS{}
+	for p, c := range files {
+		mfs[p] = &fstest.MapFile{Data: []byte(c), Mode: 0o644}
+	}
+	if fd.osFiles {
+		mfs["etc/os-release"] = &fstest.MapFile{Data: []byte("ID=debian\nVERSION_ID=\"12\"\nVERSION_CODENAME=bookworm\n"), Mode: 0o644}
+	}
+	res := extractResult{Obs: [][2]string{}, Required: true}
+	res.Panic = Safely(func() {
+		inv, status, err := filesystem.Run(context.Background(), &filesystem.Config{
+			Extractors: []filesystem.Extractor{fd.mk()},
+			ScanRoots:  []*scalibrfs.ScanRoot{{FS: mfs, Path: ""}},
+			Stats:      stats.NoopCollector{},
+		})
+		if err != nil {
+			res.Err = err.Error()
+		}
+		for _, st := range status {
+			if st.Status != nil && st.Status.Status != plugin.ScanStatusSucceeded {
+				res.Err += fmt.Sprintf("[%s: %v %s]", st.Name, st.Status.Status, st.Status.FailureReason)
+			}
+		}
+		for _, p := range inv.Packages {
+			res.Obs = append(res.Obs, [2]string{p.Name, p.Version})
+			if len(p.Locations) == 0 || p.Locations[0] != fd.path {
+				res.Err += fmt.Sprintf("[package %s located at %v, not %s]", p.Name, p.Locations, fd.path)
+			}
+		}
+	})
+	sortPairs(res.Obs)
+	return res
+}
+
 // concretise maps the abstract records of a case to concrete strings.
 func concretise(fd *fmtDef, c *docCase) ([]crec, error) {
 	out := make([]crec, len(c.Records))
@@ -314,6 +360,8 @@ func concretise(fd *fmtDef, c *docCase) ([]crec, error) {
 func init() {
 	Register("docs", func(e *Env) error {
 		withDoc := e.Args["doc"] == "1"
+		withScan := e.Args["scan"] == "1"
+		brief := e.Args["brief"] == "1" // conforming cases are answered by {"i", "ok", "fmt", "nt"} only
 		return MapCases(e, func(idx int, raw []byte) (any, error) {
 			var c docCase
 			if err := json.Unmarshal(raw, &c); err != nil {
@@ -342,12 +390,32 @@ func init() {
 			want = append(want, rd.extraWant...)
 			sortPairs(want)
 			r := runExtract(fd, rd.files)
+			var sr extractResult
+			if withScan {
+				sr = runScan(fd, rd.files)
+			}
+			if brief && samePairs(r.Obs, want) && r.Err == "" && r.Panic == "" && r.Required &&
+				(!withScan || (samePairs(sr.Obs, want) && sr.Err == "" && sr.Panic == "")) {
+				return map[string]any{"i": idx, "ok": true, "fmt": c.Fmt, "nt": len(c.Records) >= 2 && c.Layout != defaultLayout(c.Layout.Variant)}, nil
+			}
 			out := map[string]any{"i": idx, "obs": r.Obs, "want": want, "required": r.Required}
+			if brief {
+				out["case"] = json.RawMessage(raw)
+			}
 			if r.Err != "" {
 				out["err"] = r.Err
 			}
 			if r.Panic != "" {
 				out["panic"] = r.Panic
+			}
+			if withScan {
+				out["scan_obs"] = sr.Obs
+				if sr.Err != "" {
+					out["scan_err"] = sr.Err
+				}
+				if sr.Panic != "" {
+					out["scan_panic"] = sr.Panic
+				}
 			}
 			if withDoc {
 				out["doc"] = rd.files
